@@ -520,3 +520,57 @@ def degenerate_pool_single_connection(seed, params):
     for j in range(2):  # acquire on a closed (empty) pool
         sim.schedule(ev(t_close + 1 + j, "start", procs[len(arr) + j], worker=len(arr) + j))
     return Scenario(sim, {"pool": pool}, "clients", True, len(arr) + 3)
+
+
+# ----------------------------------------------------------------------
+# zero / sub-nanosecond retry delays at instants that do not round-trip through float seconds
+
+
+@scenario("clients.zero_delay_retry_nonroundtrip_timeouts", "clients")
+def zero_delay_retry_nonroundtrip_timeouts(seed, params):
+    """Every client-like component with a retry policy, retry delay 0 or below 1 ns, and requests sent so
+    that the timeout fires at an instant that loses 1 ns in `Instant.from_seconds(t.to_seconds())`
+    (`p.arrivals_before(timeout)`): a retry stamped through float seconds is 1 ns in the past there.
+    The targets answer long after the timeout, so every attempt times out and is retried."""
+    from happysimulator.components.microservice import Sidecar
+
+    p = P(params, seed)
+    to = p.lat(0)
+    k = p.count(0, 3, lo=2, hi=4)
+    slow = Replier("slow", to * 5)
+    tiny = 1e-10  # positive, below the clock resolution: accepted where delay must be > 0
+    policies = {
+        "fixed0": FixedRetry(max_attempts=k, delay=0.0),
+        "fixed_tiny": FixedRetry(max_attempts=k, delay=tiny),
+        "expo_tiny": ExponentialBackoff(max_attempts=k, initial_delay=tiny, max_delay=tiny, multiplier=1.0, jitter=0.0),
+        "decorr_tiny": DecorrelatedJitter(max_attempts=k, base_delay=tiny, max_delay=tiny),
+    }
+    clients = [Client(f"client_{n}", target=slow, timeout=to, retry_policy=pol) for n, pol in policies.items()]
+    arr = p.arrivals_before(to, 6)
+    pool = ConnectionPool(
+        "pool", target=slow, min_connections=0, max_connections=max(4, 4 * len(arr)), connection_timeout=to * 50,
+        idle_timeout=to * 100, connection_latency=ConstantLatency(0.0),
+    )  # fmt: skip
+    pooled = PooledClient("pooled", connection_pool=pool, timeout=to, retry_policy=FixedRetry(max_attempts=k, delay=0.0))
+    sidecar = Sidecar(
+        "sidecar", target=slow, request_timeout=to, max_retries=k, retry_base_delay=0.0,
+        circuit_failure_threshold=10_000, circuit_timeout=to * 100,
+    )  # fmt: skip
+
+    def caller(proc, event):
+        i = event.context["metadata"]["i"]
+        proc.done += 1
+        out = [c.send_request(payload={"i": i}) for c in clients]
+        out.append(pooled.send_request(payload={"i": i}))
+        return out
+
+    api = Proc("caller", caller)
+    sim = make_sim([*clients, pool, pooled, sidecar, slow, api], max(p.end(), (max(arr) / 1e9) + to * 40))
+    for i, t in enumerate(arr):
+        sim.schedule(ev(t, "call", api, i=i))
+        sim.schedule(ev(t, "Request", sidecar, n=i))
+        for c in clients:
+            sim.schedule(ev(t, "request", c, request_id=20_000 + i, payload={"i": i}, attempt=1))
+    comps = {c.name: c for c in clients}
+    comps.update(pool=pool, pooled=pooled, sidecar=sidecar, slow=slow)
+    return Scenario(sim, comps, "clients", True, len(arr) * (2 * len(clients) + 2))
